@@ -83,7 +83,7 @@ def project(c):
     src = c.pick(DOCS)
     dst = c.pick([d for d in DOCS if d != src])
     titles = {d: "Title %s" % d.replace("/", " ") for d in DOCS}
-    spelling = c.pick(["rel", "dot-rel", "abs", "noext", "project", "project-abs", "label", "label-missing", "missing-doc", "path-file", "rel-file", "anchor", "anchor-missing", "project-anchor", "self-anchor", "dup-anchor", "path-file-image", "project-missing", "excluded-doc"])
+    spelling = c.pick(["rel", "dot-rel", "abs", "noext", "project", "project-abs", "label", "label-missing", "missing-doc", "path-file", "rel-file", "anchor", "anchor-missing", "project-anchor", "self-anchor", "dup-anchor", "path-file-image", "project-missing", "excluded-doc", "label-missing-upper", "self-file-foreign-label"])
     explicit = bool(c.choose(2))
     srcdir = posixpath.dirname(src)
     rel = posixpath.normpath(posixpath.join(posixpath.relpath(posixpath.dirname(dst) or ".", srcdir or "."), posixpath.basename(dst)))
@@ -107,6 +107,13 @@ def project(c):
     elif spelling == "label-missing":
         dest = "#lbl-nosuch"
         kind = "missing"
+    elif spelling == "label-missing-upper":
+        dest = "#Lbl-NoSuch"  # the warning and the fallback text name the target as it was written
+        kind = "missing"
+    elif spelling == "self-file-foreign-label":
+        # the page's own file with a fragment that is a label of ANOTHER document: not an anchor of this page
+        dest = posixpath.basename(src) + ".md#lbl-" + dst.replace("/", "-")
+        kind = "missing-anchor"
     elif spelling == "missing-doc":
         dest = posixpath.relpath("nosuch/zz", srcdir or ".") + ".md"
         kind = "missing"
@@ -222,6 +229,8 @@ def check(refs, warn, spec):
         shown = spec.get("para_text", "")
         if (spec["explicit"] and "my text" not in shown) or not shown:
             return ("missing-link-text", "unresolvable link %r shows %r" % (spec["md"], shown))
+        if spec["spelling"] == "label-missing-upper" and ("Lbl-NoSuch" not in warn or (not spec["explicit"] and "Lbl-NoSuch" not in shown)):
+            return ("missing-warning-names-target", "unresolvable link %r: warning %r / text %r do not name the target as written" % (spec["md"], warn[:300], shown))
         return None
     if len(refs) != 1:
         return ("link-count", "link %r produced %d reference nodes: %r" % (spec["md"], len(refs), refs))
@@ -269,7 +278,9 @@ def check(refs, warn, spec):
         if nmiss != 1:
             return ("missing-warning-count", "unresolvable link %r produced %d xref_missing warnings: %r" % (spec["md"], nmiss, warn[:300]))
         name = spec["dest"].split(":", 1)[-1] if spec["dest"].startswith("project:") else spec["dest"]
-        key = "no-such-anchor" if kind == "missing-anchor" else name.lstrip("#").split("#")[0]
+        key = name.split("#", 1)[1] if kind == "missing-anchor" else name.lstrip("#").split("#")[0]
+        if spec["spelling"] == "label-missing-upper" and not spec["explicit"] and key not in r["text"]:
+            return ("missing-warning-names-target", "unresolvable link %r shows %r" % (spec["md"], r["text"]))
         if key not in warn:
             return ("missing-warning-names-target", "warning %r does not name %r" % (warn[:300], key))
         if not r["text"]:
